@@ -97,8 +97,17 @@ class DagWalker(Walker):
 
     def iter_walk(self, formula: FNode, **kwargs) -> Any:
         """Performs an iterative walk of the DAG"""
+        stack_len = len(self.stack)
         self.stack.append((False, formula))
-        self._process_stack(**kwargs)
+        try:
+            self._process_stack(**kwargs)
+        except BaseException:
+            # A failing walk must not leave pending work (nor the
+            # partial results of a one-time cache) to later walks
+            del self.stack[stack_len:]
+            if self.invalidate_memoization:
+                self.memoization.clear()
+            raise
         res_key = self._get_key(formula, **kwargs)
         return self.memoization[res_key]
 
